@@ -412,7 +412,7 @@ def record(case):
     """One input -> two trace cases: <id>-lib and <id>-cli."""
     op = case["op"]
     if case["src"] == "corpus":
-        with open(os.path.join(lib.REPO, "tests", case["file"]), newline="") as f:
+        with open(os.path.join(lib.REPO, "tests", case["file"])) as f:    # text mode, as a tool reading the file would
             text = f.read()
         ok, doc = _project_doc(text)
         if not ok:
